@@ -163,7 +163,11 @@ func runPQ(k *kernel.K) {
 	if secondNet(k, "pq") {
 		return
 	}
-	mode := k.Choose(4, "mode")
+	mode := k.Choose(5, "mode")
+	if mode == 4 {
+		runTxState(k)
+		return
+	}
 	if mode == 0 {
 		// sequential histories: long, more keys and priorities
 		nKeys := k.Range(1, 8, "keys")
